@@ -5,7 +5,7 @@ import json, os, subprocess, sys
 
 root, out = sys.argv[1], sys.argv[2]
 ids = sys.argv[3:] or [f"C{i:02d}" for i in range(1, 21)]
-EXTRA = {"C02": ["C08", "C10", "C18"], "C06": ["C14"], "C07": ["C14"], "C10": ["C04"], "C04": ["C10"], "C16": ["C08"], "C15": ["C05"], "C20": ["C05"]}
+EXTRA = {"C02": ["C08", "C10", "C18"], "C06": ["C14"], "C07": ["C14"], "C10": ["C04"], "C04": ["C10"], "C16": ["C08", "C05"], "C15": ["C05"], "C20": ["C05"]}
 res = json.load(open(out)) if os.path.exists(out) else {}
 for pid in ids:
     for n in (1, 2):
